@@ -12,8 +12,18 @@ the temperature and the two interpolator-cache flags.  Branch marks, extra data 
 NOT part of the model state: no operation of the model can read or write them, which is the model's way of
 saying "never altered" (the correspondence run checks that on the Python side).
 
-All statements hold for every field `α` of characteristic zero (no order needed), every column content,
-and — in part A — for ANY string arguments.
+Contents (helpers are `lemma`, properties are `theorem`):
+  A. structure, any `Ctx`, any `Iso`, ANY string arguments, any field:
+       `convertPressure/Loading/Material/Temperature_refused_unchanged`, `step_single_refused_unchanged`,
+       `convertAll_refused_prefix`, `step_rows_scaled`, `step_lengths`, `run_lengths`,
+       `successful_conversion_resets_caches`, `step_caches_monotone`, `rewriting_branch_resets_caches`.
+  B. typed single steps (field of characteristic 0, context `⟨some ps, envOf a mat, true⟩`, `ps ≠ 0`, consistent
+     non-zero adsorbate / material constants): `validLabels_of_valid`, `convertPressure_typed`, `convertLoading_typed`,
+     `convertMaterial_typed`, `convertTemperature_typed`, and their conservation form `step_typed` (`Conserved`).
+  C. histories: `history_invariant`, `history_direct`, `back_to_start`, `refusals_interleaved`.
+  D. completeness of validation (full strength, all four quantities): `step_any_args`; and as consequences
+     `step_any_op_good` (also the combined `convert(...)`, also when it is refused half-way) and `run_any_history`.
+  Non-vacuity examples over ℚ at the end.
 -/
 import PgVerif.Props.C01
 import PgVerif.Model.IsoState
@@ -28,7 +38,7 @@ namespace PgVerif.C02
 open PgVerif.Model PgVerif.Units
 open PgVerif.Spec (LB MB Ads Mat gL gM PRep LRep MRep TRep physScale fac)
 
-variable {α : Type} [Field α] [CharZero α]
+variable {α : Type} [Field α]
 
 /-! ## A. Structure: refusals, row order, caches (any context, any state, any string arguments) -/
 
@@ -487,6 +497,8 @@ theorem rewriting_branch_resets_caches (c : Ctx α) (s : Iso α) (m : String) (u
     simp [lCore, h1, h2, h3]
 
 /-! ## B. Typed single-step specifications -/
+
+variable [CharZero α]
 
 /-- a full representation of a point isotherm: pressure, loading, material, temperature -/
 structure Rep where
@@ -1017,5 +1029,958 @@ theorem convertTemperature_typed (s : Iso α) (r : Rep) (t : TRep) (hs : s.lab =
   refine ⟨trivial, ?_, trivial, trivial, trivial, ?_⟩
   · rw [hs]; simp only [labelsOf, tLabel_normT]
   · cases t <;> simp [normT, Spec.TRep.toK, Spec.TRep.ofK]
+
+/-! ### conservation form of the single steps -/
+
+/-- state `s'` under representation `r'` carries the same physical content as `s` under `r`, row by row
+(list equality: same number of rows, same order), and its labels name `r'` -/
+structure Conserved (ps : α) (a : Ads α) (mat : Mat α) (s : Iso α) (r : Rep) (s' : Iso α) (r' : Rep) : Prop where
+  lab : s'.lab = labelsOf r'
+  ps : s'.ps.map (canonP ps r') = s.ps.map (canonP ps r)
+  ls : s'.ls.map (canonL a mat r') = s.ls.map (canonL a mat r)
+  temp : kelvin r' s'.temp = kelvin r s.temp
+
+lemma Conserved.refl (ps : α) (a : Ads α) (mat : Mat α) (s : Iso α) (r : Rep) (h : s.lab = labelsOf r) :
+    Conserved ps a mat s r s r := ⟨h, rfl, rfl, rfl⟩
+
+lemma Conserved.trans {ps : α} {a : Ads α} {mat : Mat α} {s s' s'' : Iso α} {r r' r'' : Rep}
+    (h1 : Conserved ps a mat s r s' r') (h2 : Conserved ps a mat s' r' s'' r'') :
+    Conserved ps a mat s r s'' r'' :=
+  ⟨h2.lab, h2.ps.trans h1.ps, h2.ls.trans h1.ls, h2.temp.trans h1.temp⟩
+
+/-- row-wise reading of `Conserved`: the i-th stored pressure / loading carries the content of the i-th original one
+(and there is an i-th row on one side iff there is one on the other) -/
+theorem Conserved.rowwise {ps : α} {a : Ads α} {mat : Mat α} {s s' : Iso α} {r r' : Rep}
+    (h : Conserved ps a mat s r s' r') (i : Nat) :
+    (s'.ps[i]?).map (canonP ps r') = (s.ps[i]?).map (canonP ps r) ∧
+    (s'.ls[i]?).map (canonL a mat r') = (s.ls[i]?).map (canonL a mat r) := by
+  have h1 := congrArg (fun l => l[i]?) h.ps
+  have h2 := congrArg (fun l => l[i]?) h.ls
+  simp only [List.getElem?_map] at h1 h2
+  exact ⟨h1, h2⟩
+
+lemma conserve_map (f f' : α → α) (k : α) (l : List α) (hk : ∀ v, f' (v * k) = f v) :
+    (l.map (· * k)).map f' = l.map f := by
+  rw [List.map_map]; congr 1; funext v; exact hk v
+
+lemma spOf_eq {ps : α} {p : PRep} {x : α} (h : p.scale Gen.pressureUnits ps = some x) : spOf ps p = x := by
+  simp [spOf, h]
+lemma slOf_eq {a : Ads α} {l : LRep} {m : MRep} {x : α} (h : l.scale Gen.unitTable a m = some x) :
+    slOf a l m = x := by simp [slOf, h]
+lemma gmOf_eq {mat : Mat α} {m : MRep} {x : α} (h : m.grams Gen.unitTable mat = some x) : gmOf mat m = x := by
+  simp [gmOf, h]
+
+/-- under `Rep.Valid` the three total scales are the actual scales, and they are non-zero -/
+lemma Rep.Valid.scales {ps : α} {a : Ads α} {mat : Mat α} {r : Rep} (hps : ps ≠ 0) (hp : a.Pos) (hmp : Mat.Pos mat)
+    (h : Rep.Valid ps a mat r) :
+    (r.p.scale Gen.pressureUnits ps = some (spOf ps r.p) ∧ spOf ps r.p ≠ 0) ∧
+    (r.l.scale Gen.unitTable a r.m = some (slOf a r.l r.m) ∧ slOf a r.l r.m ≠ 0) ∧
+    (r.m.grams Gen.unitTable mat = some (gmOf mat r.m) ∧ gmOf mat r.m ≠ 0) := by
+  obtain ⟨h1, h2, h3, _⟩ := h
+  obtain ⟨x, hx⟩ := Option.isSome_iff_exists.1 h1
+  obtain ⟨y, hy⟩ := Option.isSome_iff_exists.1 h2
+  obtain ⟨z, hz⟩ := Option.isSome_iff_exists.1 h3
+  rw [spOf_eq hx, slOf_eq hy, gmOf_eq hz]
+  exact ⟨⟨hx, scale_ne_zero_gen ps hps _ _ hx⟩, ⟨hy, lscale_ne_zero_gen a hp _ _ _ hy⟩,
+    ⟨hz, grams_ne_zero_gen mat hmp _ _ hz⟩⟩
+
+/-! ## C. Histories -/
+
+/-- typed conversion requests -/
+inductive TOp | toP (t : PRep) | toL (l : LRep) | toM (m : MRep) | toT (t : TRep)
+
+/-- the call a typed request stands for: the single-quantity method with both arguments given -/
+def TOp.toOp : TOp → Op
+  | .toP t => .pressure (some t.mode) t.unit
+  | .toL l => .loading (some l.basis) l.unit
+  | .toM m => .material (some m.b.name) (some m.u)
+  | .toT t => .temperature (some t.label)
+
+/-- its effect on the representation -/
+def TOp.apply (r : Rep) : TOp → Rep
+  | .toP t => { r with p := t }
+  | .toL l => { r with l := l }
+  | .toM m => { r with m := m }
+  | .toT t => { r with t := normT t }
+
+/-- the target is supported (a fraction / percent target needs nothing: it is expressed in the current, valid,
+material representation) -/
+def TOp.Valid (ps : α) (a : Ads α) (mat : Mat α) : TOp → Prop
+  | .toP t => (t.scale Gen.pressureUnits ps).isSome
+  | .toL (.phys b u) => (physScale Gen.unitTable a b u).isSome
+  | .toL _ => True
+  | .toM m => (m.grams Gen.unitTable mat).isSome
+  | .toT t => TRep.Valid t
+
+lemma valid_apply (ps : α) (a : Ads α) (mat : Mat α) (r : Rep) (op : TOp)
+    (hr : Rep.Valid ps a mat r) (hop : TOp.Valid ps a mat op) : Rep.Valid ps a mat (TOp.apply r op) := by
+  obtain ⟨h1, h2, h3, h4⟩ := hr
+  cases op with
+  | toP t => exact ⟨hop, h2, h3, h4⟩
+  | toL l =>
+    refine ⟨h1, ?_, h3, h4⟩
+    obtain ⟨g, hg⟩ := Option.isSome_iff_exists.1 h3
+    obtain ⟨p, hp⟩ := own_scale_of_grams a mat r.m g hg
+    cases l with
+    | phys b u => exact hop
+    | frac => simp [TOp.apply, LRep.scale, hp]
+    | pct => simp [TOp.apply, LRep.scale, hp]
+  | toM m =>
+    obtain ⟨y, hy⟩ := Option.isSome_iff_exists.1 h2
+    obtain ⟨g, hg⟩ := Option.isSome_iff_exists.1 hop
+    obtain ⟨y', hy'⟩ := lscale_of_grams a mat r.l r.m m y g hy hg
+    exact ⟨h1, by simp [TOp.apply, hy'], hop, h4⟩
+  | toT t => exact ⟨h1, h2, h3, by cases t <;> simp [TOp.apply, normT]⟩
+
+/-- **one typed step**: returns normally, conserves the physical content, stays valid -/
+theorem step_typed (ps : α) (hps : ps ≠ 0) (a : Ads α) (mat : Mat α) (hc : a.Consistent) (hp : a.Pos) (hmp : Mat.Pos mat)
+    (s : Iso α) (r : Rep) (op : TOp) (hs : s.lab = labelsOf r)
+    (hr : Rep.Valid ps a mat r) (hop : TOp.Valid ps a mat op) :
+    (step ⟨some ps, envOf a mat, true⟩ s op.toOp).2 = .ok ∧
+    Conserved ps a mat s r (step ⟨some ps, envOf a mat, true⟩ s op.toOp).1 (TOp.apply r op) ∧
+    Rep.Valid ps a mat (TOp.apply r op) := by
+  have hv' := valid_apply ps a mat r op hr hop
+  obtain ⟨⟨hsp, hspn⟩, ⟨hsl, hsln⟩, ⟨hg, hgn⟩⟩ := hr.scales hps hp hmp
+  obtain ⟨⟨hsp', hspn'⟩, ⟨hsl', hsln'⟩, ⟨hg', hgn'⟩⟩ := hv'.scales hps hp hmp
+  refine ⟨?_, ?_, hv'⟩
+  · cases op with
+    | toP t => exact (convertPressure_typed ps hps _ s r t _ _ hs hsp hsp').1
+    | toL l => exact (convertLoading_typed a mat hc hp _ _ s r l _ _ hs hsl hsl').1
+    | toM m => exact (convertMaterial_typed a mat hc hp hmp _ _ s r m _ _ _ _ hs hsl hg hsl' hg').1
+    | toT t => exact (convertTemperature_typed s r t hs hr.2.2.2 hop).1
+  · cases op with
+    | toP t =>
+      obtain ⟨_, h2, h3, h4, h5⟩ := convertPressure_typed ps hps (envOf a mat) s r t _ _ hs hsp hsp'
+      refine ⟨h2, ?_, ?_, ?_⟩
+      · simp only [step, TOp.toOp]
+        rw [h5]
+        apply conserve_map
+        intro v
+        simp only [canonP, TOp.apply]
+        have : spOf ps t ≠ 0 := hspn'
+        field_simp
+      · simp only [step, TOp.toOp]; rw [h3]; rfl
+      · simp only [step, TOp.toOp]; rw [h4]; rfl
+    | toL l =>
+      obtain ⟨_, h2, h3, h4, h5⟩ := convertLoading_typed a mat hc hp (some ps) true s r l _ _ hs hsl hsl'
+      refine ⟨h2, ?_, ?_, ?_⟩
+      · simp only [step, TOp.toOp]; rw [h3]; rfl
+      · simp only [step, TOp.toOp]
+        rw [h5]
+        apply conserve_map
+        intro v
+        simp only [canonL, TOp.apply]
+        have : slOf a l r.m ≠ 0 := hsln'
+        field_simp
+      · simp only [step, TOp.toOp]; rw [h4]; rfl
+    | toM m =>
+      obtain ⟨_, h2, h3, h4, h5⟩ :=
+        convertMaterial_typed a mat hc hp hmp (some ps) true s r m _ _ _ _ hs hsl hg hsl' hg'
+      refine ⟨h2, ?_, ?_, ?_⟩
+      · simp only [step, TOp.toOp]; rw [h3]; rfl
+      · simp only [step, TOp.toOp]
+        rw [h5]
+        apply conserve_map
+        intro v
+        simp only [canonL, TOp.apply]
+        have e1 : slOf a r.l m ≠ 0 := hsln'
+        have e2 : gmOf mat m ≠ 0 := hgn'
+        field_simp
+      · simp only [step, TOp.toOp]; rw [h4]; rfl
+    | toT t =>
+      obtain ⟨_, h2, h3, h4, _, h6⟩ := convertTemperature_typed s r t hs hr.2.2.2 hop
+      refine ⟨h2, ?_, ?_, ?_⟩
+      · simp only [step, TOp.toOp]; rw [h3]; rfl
+      · simp only [step, TOp.toOp]; rw [h4]; rfl
+      · exact h6
+
+lemma run_cons (c : Ctx α) (s : Iso α) (op : Op) (ops : List Op) :
+    run c s (op :: ops) = run c (step c s op).1 ops := rfl
+
+/-- **history invariant**: after ANY list of typed conversions with supported targets, the labels name exactly the
+representation obtained by applying the requests in order, those labels would be accepted by the constructor, and the
+stored pressures, loadings and temperature carry row by row the same Pa, mol/g and K as the original data. -/
+theorem history_invariant (ps : α) (hps : ps ≠ 0) (a : Ads α) (mat : Mat α) (hc : a.Consistent) (hp : a.Pos)
+    (hmp : Mat.Pos mat) (ops : List TOp) (hops : ∀ op ∈ ops, TOp.Valid ps a mat op)
+    (s0 : Iso α) (r0 : Rep) (hs : s0.lab = labelsOf r0) (hr : Rep.Valid ps a mat r0) :
+    (run ⟨some ps, envOf a mat, true⟩ s0 (ops.map TOp.toOp)).lab = labelsOf (ops.foldl TOp.apply r0) ∧
+    validLabels (run ⟨some ps, envOf a mat, true⟩ s0 (ops.map TOp.toOp)).lab = true ∧
+    Rep.Valid ps a mat (ops.foldl TOp.apply r0) ∧
+    Conserved ps a mat s0 r0 (run ⟨some ps, envOf a mat, true⟩ s0 (ops.map TOp.toOp)) (ops.foldl TOp.apply r0) := by
+  induction ops generalizing s0 r0 with
+  | nil =>
+    refine ⟨hs, ?_, hr, Conserved.refl ps a mat s0 r0 hs⟩
+    show validLabels s0.lab = true
+    rw [hs]; exact validLabels_of_valid ps a mat r0 hr
+  | cons op ops ih =>
+    obtain ⟨_, hcons, hval⟩ := step_typed ps hps a mat hc hp hmp s0 r0 op hs hr (hops op (by simp))
+    obtain ⟨i1, i2, i3, i4⟩ := ih (fun o ho => hops o (by simp [ho])) _ _ hcons.lab hval
+    simp only [List.map_cons, run_cons, List.foldl_cons]
+    exact ⟨i1, i2, i3, hcons.trans i4⟩
+
+lemma map_mul_cancel (l1 l2 : List α) (x y : α) (hx : x ≠ 0)
+    (h : l1.map (· * x) = l2.map (· * y)) : l1 = l2.map (· * (y / x)) := by
+  have h' := congrArg (List.map (fun v => v * x⁻¹)) h
+  rw [List.map_map, List.map_map] at h'
+  have e1 : ((fun v => v * x⁻¹) ∘ (fun v => v * x)) = id := by
+    funext v; simp [mul_assoc, hx]
+  have e2 : ((fun v => v * x⁻¹) ∘ (fun v => v * y)) = (fun v => v * (y / x)) := by
+    funext v; simp [mul_assoc, div_eq_mul_inv]
+  rw [e1, e2, List.map_id] at h'
+  exact h'
+
+/-- conservation under a valid final representation, solved for the stored numbers -/
+lemma Conserved.direct {ps : α} {a : Ads α} {mat : Mat α} {s0 sf : Iso α} {r0 rf : Rep}
+    (hps : ps ≠ 0) (hp : a.Pos) (hmp : Mat.Pos mat)
+    (hvf : Rep.Valid ps a mat rf) (hcons : Conserved ps a mat s0 r0 sf rf) :
+    sf.ps = s0.ps.map (· * (spOf ps r0.p / spOf ps rf.p)) ∧
+    sf.ls = s0.ls.map (· * ((slOf a r0.l r0.m / gmOf mat r0.m) / (slOf a rf.l rf.m / gmOf mat rf.m))) ∧
+    sf.temp = rf.t.ofK (r0.t.toK s0.temp) := by
+  obtain ⟨⟨_, hspn⟩, ⟨_, hsln⟩, ⟨_, hgn⟩⟩ := hvf.scales hps hp hmp
+  refine ⟨?_, ?_, ?_⟩
+  · exact map_mul_cancel _ _ _ _ hspn hcons.ps
+  · have e : ∀ r : Rep, canonL a mat r = (· * (slOf a r.l r.m / gmOf mat r.m)) := by
+      intro r; funext v; simp only [canonL]; ring
+    have h := hcons.ls
+    rw [e, e] at h
+    exact map_mul_cancel _ _ _ _ (div_ne_zero hsln hgn) h
+  · have h := hcons.temp
+    simp only [kelvin] at h
+    rw [← h]
+    cases rf.t <;> simp [Spec.TRep.toK, Spec.TRep.ofK]
+
+/-- **history = direct conversion**: the final columns are the ORIGINAL columns converted in one step to the final
+representation (pressure: Pa per original unit over Pa per final unit; loading: ratio of the canonical contents,
+mol adsorbate per gram material), and the final temperature is the original one converted through Kelvin. -/
+theorem history_direct (ps : α) (hps : ps ≠ 0) (a : Ads α) (mat : Mat α) (hc : a.Consistent) (hp : a.Pos)
+    (hmp : Mat.Pos mat) (ops : List TOp) (hops : ∀ op ∈ ops, TOp.Valid ps a mat op)
+    (s0 : Iso α) (r0 : Rep) (hs : s0.lab = labelsOf r0) (hr : Rep.Valid ps a mat r0) :
+    let sf := run ⟨some ps, envOf a mat, true⟩ s0 (ops.map TOp.toOp)
+    let rf := ops.foldl TOp.apply r0
+    sf.ps = s0.ps.map (· * (spOf ps r0.p / spOf ps rf.p)) ∧
+    sf.ls = s0.ls.map (· * ((slOf a r0.l r0.m / gmOf mat r0.m) / (slOf a rf.l rf.m / gmOf mat rf.m))) ∧
+    sf.temp = rf.t.ofK (r0.t.toK s0.temp) := by
+  intro sf rf
+  obtain ⟨_, _, hvf, hcons⟩ := history_invariant ps hps a mat hc hp hmp ops hops s0 r0 hs hr
+  exact hcons.direct hps hp hmp hvf
+
+/-- **back to start**: a history that ends in the starting representation restores the original numbers -/
+theorem back_to_start (ps : α) (hps : ps ≠ 0) (a : Ads α) (mat : Mat α) (hc : a.Consistent) (hp : a.Pos)
+    (hmp : Mat.Pos mat) (ops : List TOp) (hops : ∀ op ∈ ops, TOp.Valid ps a mat op)
+    (s0 : Iso α) (r0 : Rep) (hs : s0.lab = labelsOf r0) (hr : Rep.Valid ps a mat r0)
+    (hback : ops.foldl TOp.apply r0 = r0) :
+    let sf := run ⟨some ps, envOf a mat, true⟩ s0 (ops.map TOp.toOp)
+    sf.ps = s0.ps ∧ sf.ls = s0.ls ∧ sf.temp = s0.temp ∧ sf.lab = s0.lab := by
+  intro sf
+  obtain ⟨h1, h2, h3⟩ := history_direct ps hps a mat hc hp hmp ops hops s0 r0 hs hr
+  obtain ⟨hl, _, _, _⟩ := history_invariant ps hps a mat hc hp hmp ops hops s0 r0 hs hr
+  obtain ⟨⟨_, hspn⟩, ⟨_, hsln⟩, ⟨_, hgn⟩⟩ := hr.scales hps hp hmp
+  simp only [hback] at h1 h2 h3 hl
+  refine ⟨?_, ?_, ?_, ?_⟩
+  · rw [h1, div_self hspn]; simp
+  · rw [h2, div_self (div_ne_zero hsln hgn)]; simp
+  · rw [h3]; cases r0.t <;> simp [Spec.TRep.toK, Spec.TRep.ofK]
+  · rw [hl, hs]
+
+/-! ### refused calls in between -/
+
+/-- a step of a mixed history: a typed request, or an arbitrary call (any strings) -/
+inductive HStep | typed (t : TOp) | raw (o : Op)
+
+def HStep.toOp : HStep → Op
+  | .typed t => t.toOp | .raw o => o
+
+/-- a raw (refused) call leaves the representation alone -/
+def HStep.apply (r : Rep) : HStep → Rep
+  | .typed t => TOp.apply r t | .raw _ => r
+
+/-- every typed request has a supported target; every raw call is a single-quantity call (not `convert(...)`) that is
+REFUSED at the state in which it is issued -/
+def Admissible (ps : α) (a : Ads α) (mat : Mat α) (c : Ctx α) : Iso α → List HStep → Prop
+  | _, [] => True
+  | s, .typed t :: rest => TOp.Valid ps a mat t ∧ Admissible ps a mat c (step c s t.toOp).1 rest
+  | s, .raw o :: rest =>
+      (∀ pm pu lb lu mb mu, o ≠ .all pm pu lb lu mb mu) ∧ (step c s o).2 ≠ .ok ∧
+      Admissible ps a mat c (step c s o).1 rest
+
+/-- **refusals interleaved**: a history made of typed successful requests and arbitrary REFUSED single-quantity calls
+(any string arguments, any error class) satisfies the same conclusions as a history of the typed requests alone:
+each refused call leaves the state exactly as it was (part A), so labels, validity, conservation and the direct-conversion
+form all survive. -/
+theorem refusals_interleaved (ps : α) (hps : ps ≠ 0) (a : Ads α) (mat : Mat α) (hc : a.Consistent) (hp : a.Pos)
+    (hmp : Mat.Pos mat) (steps : List HStep) (s0 : Iso α) (r0 : Rep)
+    (hadm : Admissible ps a mat ⟨some ps, envOf a mat, true⟩ s0 steps)
+    (hs : s0.lab = labelsOf r0) (hr : Rep.Valid ps a mat r0) :
+    let sf := run ⟨some ps, envOf a mat, true⟩ s0 (steps.map HStep.toOp)
+    let rf := steps.foldl HStep.apply r0
+    sf.lab = labelsOf rf ∧ validLabels sf.lab = true ∧ Rep.Valid ps a mat rf ∧ Conserved ps a mat s0 r0 sf rf ∧
+    sf.ps = s0.ps.map (· * (spOf ps r0.p / spOf ps rf.p)) ∧
+    sf.ls = s0.ls.map (· * ((slOf a r0.l r0.m / gmOf mat r0.m) / (slOf a rf.l rf.m / gmOf mat rf.m))) ∧
+    sf.temp = rf.t.ofK (r0.t.toK s0.temp) := by
+  intro sf rf
+  have main : sf.lab = labelsOf rf ∧ validLabels sf.lab = true ∧ Rep.Valid ps a mat rf ∧
+      Conserved ps a mat s0 r0 sf rf := by
+    simp only [sf, rf]
+    clear sf rf
+    induction steps generalizing s0 r0 with
+    | nil =>
+      refine ⟨hs, ?_, hr, Conserved.refl ps a mat s0 r0 hs⟩
+      show validLabels s0.lab = true
+      rw [hs]; exact validLabels_of_valid ps a mat r0 hr
+    | cons st steps ih =>
+      cases st with
+      | typed t =>
+        obtain ⟨hv, hrest⟩ := hadm
+        obtain ⟨_, hcons, hval⟩ := step_typed ps hps a mat hc hp hmp s0 r0 t hs hr hv
+        obtain ⟨i1, i2, i3, i4⟩ := ih _ _ hrest hcons.lab hval
+        simp only [List.map_cons, run_cons, List.foldl_cons]
+        exact ⟨i1, i2, i3, hcons.trans i4⟩
+      | raw o =>
+        obtain ⟨hsingle, hrefused, hrest⟩ := hadm
+        have hun := step_single_refused_unchanged _ s0 o hsingle hrefused
+        simp only [List.map_cons, run_cons, List.foldl_cons, HStep.toOp, HStep.apply]
+        rw [hun] at hrest ⊢
+        exact ih s0 r0 hrest hs hr
+  obtain ⟨m1, m2, m3, m4⟩ := main
+  obtain ⟨d1, d2, d3⟩ := m4.direct hps hp hmp m3
+  exact ⟨m1, m2, m3, m4, d1, d2, d3⟩
+
+/-! ## D. Completeness of validation: ANY single-quantity call, arbitrary string arguments -/
+
+lemma checkUnit_cases (t : List (String × Nat × Nat)) (u : Option String) :
+    (∃ y, ∃ f : α, u = some y ∧ y ≠ "" ∧ (facOf t y : Option α) = some f ∧ (checkUnit t u : Except Err α) = .ok f) ∨
+    (checkUnit t u : Except Err α) = .error .param := by
+  cases u with
+  | none => right; rfl
+  | some y =>
+    by_cases hy : y = ""
+    · right; simp [checkUnit, hy]
+    · cases hf : (facOf t y : Option α) with
+      | none => right; simp [checkUnit, hy, hf]
+      | some f => left; exact ⟨y, f, rfl, hy, hf, by simp [checkUnit, hy, hf]⟩
+
+lemma unitArg_resolved (u : Option String) (same : Bool) (cur : Option String)
+    (h1 : same = true) (h2 : truthy (unitArg u same cur) = false) : unitArg u same cur = cur := by
+  unfold unitArg at h2 ⊢
+  cases ht : truthy u <;> simp [ht, h1] at h2 ⊢
+
+lemma pLabel_mode_cases (a : PRep) :
+    (pLabel a).1 = "absolute" ∨ (pLabel a).1 = "relative" ∨ (pLabel a).1 = "relative%" := by
+  cases a <;> simp [pLabel]
+
+/-- converting to `absolute` with an unusable unit is refused (the guard excludes the one case where the code does not
+look at the unit: absolute → absolute with a falsy unit, which `convert_pressure` resolves to the current unit) -/
+lemma cPressure_abs_bad (ps : α) (v : α) (a : PRep) (ut : Option String)
+    (hbad : (checkUnit Gen.pressureUnits ut : Except Err α) = .error .param)
+    (hg : a.mode = "absolute" → truthy ut = true) :
+    ∃ e, cPressure (some ps) true v (some a.mode) (some "absolute") a.unit ut = .error e := by
+  cases a with
+  | abs u =>
+    have := hg rfl
+    refine ⟨.param, ?_⟩
+    simp [cPressure, checkBasis, Gen.pressureMode, List.lookup, Spec.PRep.mode, Spec.PRep.unit, this, cUnit, hbad,
+      bind, Except.bind]
+  | rel u =>
+    refine ⟨.param, ?_⟩
+    simp [cPressure, checkBasis, Gen.pressureMode, List.lookup, Spec.PRep.mode, hbad, bind, Except.bind]
+  | relp u =>
+    refine ⟨.param, ?_⟩
+    simp [cPressure, checkBasis, Gen.pressureMode, List.lookup, Spec.PRep.mode, hbad, bind, Except.bind]
+
+/-- **any pressure call**: refused and unchanged, or accepted as a supported `PRep` with the typed effect -/
+lemma pCore_any (ps : α) (hps : ps ≠ 0) (env : Env α) (s : Iso α) (r : Rep) (sp : α) (hs : s.lab = labelsOf r)
+    (hsp : r.p.scale Gen.pressureUnits ps = some sp)
+    (m' : String) (u' : Option String) (hres : m' = s.lab.pmode → truthy u' = false → u' = s.lab.punit) :
+    ((pCore ⟨some ps, env, true⟩ s m' u').2 ≠ .ok ∧ (pCore ⟨some ps, env, true⟩ s m' u').1 = s) ∨
+    ((pCore ⟨some ps, env, true⟩ s m' u').2 = .ok ∧ ∃ t : PRep, ∃ st : α,
+      t.scale Gen.pressureUnits ps = some st ∧
+      (pCore ⟨some ps, env, true⟩ s m' u').1.lab = labelsOf { r with p := t } ∧
+      (pCore ⟨some ps, env, true⟩ s m' u').1.ls = s.ls ∧
+      (pCore ⟨some ps, env, true⟩ s m' u').1.temp = s.temp ∧
+      (pCore ⟨some ps, env, true⟩ s m' u').1.ps = s.ps.map (· * (sp / st))) := by
+  have hm : s.lab.pmode = (pLabel r.p).1 := by rw [hs]; rfl
+  have hu : s.lab.punit = (pLabel r.p).2 := by rw [hs]; rfl
+  have hspn := scale_ne_zero_gen ps hps r.p sp hsp
+  have typed : ∀ (t : PRep) (st : α), t.scale Gen.pressureUnits ps = some st → t.mode = m' → t.unit = u' →
+      ((pCore ⟨some ps, env, true⟩ s m' u').2 = .ok ∧ ∃ t : PRep, ∃ st : α,
+      t.scale Gen.pressureUnits ps = some st ∧
+      (pCore ⟨some ps, env, true⟩ s m' u').1.lab = labelsOf { r with p := t } ∧
+      (pCore ⟨some ps, env, true⟩ s m' u').1.ls = s.ls ∧
+      (pCore ⟨some ps, env, true⟩ s m' u').1.temp = s.temp ∧
+      (pCore ⟨some ps, env, true⟩ s m' u').1.ps = s.ps.map (· * (sp / st))) := by
+    intro t st hst h1 h2
+    subst h1; subst h2
+    obtain ⟨a1, a2, a3, a4, a5⟩ := pCore_typed ps hps env s r.p t sp st hm hu hsp hst
+    exact ⟨a1, t, st, hst, by rw [a2, hs]; rfl, a3, a4, a5⟩
+  have refused : (∃ e, cPressure (some ps) true (1 : α) (some s.lab.pmode) (some m') s.lab.punit u' = .error e) →
+      ¬(m' = s.lab.pmode ∧ u' = s.lab.punit) →
+      ((pCore ⟨some ps, env, true⟩ s m' u').2 ≠ .ok ∧ (pCore ⟨some ps, env, true⟩ s m' u').1 = s) := by
+    rintro ⟨e, he⟩ hne
+    have : (pCore ⟨some ps, env, true⟩ s m' u').2 ≠ .ok := by
+      unfold pCore; simp [hne, he]
+    exact ⟨this, pCore_refused _ _ _ _ this⟩
+  by_cases h1 : m' = "relative"
+  · exact Or.inr (typed (.rel u') ps rfl h1.symm rfl)
+  by_cases h2 : m' = "relative%"
+  · exact Or.inr (typed (.relp u') (ps / 100) rfl h2.symm rfl)
+  by_cases he : m' = s.lab.pmode ∧ u' = s.lab.punit
+  · -- early return
+    right
+    have : pCore ⟨some ps, env, true⟩ s m' u' = (s, .ok) := by unfold pCore; simp [he]
+    rw [this]
+    exact ⟨rfl, r.p, sp, hsp, hs, rfl, rfl, by simp [hspn]⟩
+  by_cases h3 : m' = "absolute"
+  · rcases checkUnit_cases (α := α) Gen.pressureUnits u' with ⟨y, f, rfl, hy, hf, _⟩ | hbad
+    · refine Or.inr (typed (.abs y) f ?_ h3.symm rfl)
+      simp only [Spec.PRep.scale, hy, if_false]; exact hf
+    · left
+      apply refused _ he
+      have := cPressure_abs_bad ps (1 : α) (canonPRep r.p) u' hbad (by
+        intro hmode
+        rw [canonPRep_mode, ← hm] at hmode
+        by_contra hf
+        have hf' : truthy u' = false := by simpa using hf
+        exact he ⟨h3.trans hmode.symm, hres (h3.trans hmode.symm) hf'⟩)
+      rw [canonPRep_mode, canonPRep_unit, ← hm, ← hu, ← h3] at this
+      exact this
+  · left
+    apply refused _ he
+    have hl : Gen.pressureMode.lookup m' = none := by
+      have b1 : (m' == "relative") = false := by simpa using h1
+      have b2 : (m' == "relative%") = false := by simpa using h2
+      have b3 : (m' == "absolute") = false := by simpa using h3
+      simp [Gen.pressureMode, List.lookup, b1, b2, b3]
+    have hb := C01.checkBasis_refuses Gen.pressureMode (some m') (Or.inr (Or.inr ⟨m', rfl, hl⟩))
+    exact ⟨.param, C01.cPressure_refuses_mode _ _ _ _ _ _ _ (Or.inr hb)⟩
+
+/-- an accepted temperature unit is `K` or a Celsius spelling -/
+lemma cTemperature_ok_inv (v x : α) (uf ut : Option String) (h : cTemperature v uf ut = .ok x) :
+    ∃ t : TRep, TRep.Valid t ∧ ut = some t.label := by
+  cases ut with
+  | none => simp [cTemperature, normTemp, checkTemp, bind, Except.bind] at h
+  | some y =>
+    by_cases hy : y ≠ "" ∧ containsC y = true
+    · exact ⟨.C y, hy, rfl⟩
+    · have hn : normTemp (some y) = some y := by
+        simp only [normTemp]
+        split
+        · rename_i hc
+          simp only [bne_iff_ne, ne_eq, Bool.and_eq_true] at hc
+          exact absurd hc hy
+        · rfl
+      by_cases hK : y = "K"
+      · exact ⟨.K, trivial, by rw [hK]; rfl⟩
+      · exfalso
+        have hC : y ≠ "°C" := by
+          intro hc; apply hy; rw [hc]; exact ⟨by decide, by decide⟩
+        have b1 : (y == "K") = false := by simpa using hK
+        have b2 : (y == "°C") = false := by simpa using hC
+        have : (checkTemp (some y) : Except Err α) = .error .param := by
+          simp only [checkTemp, tempOffset, Gen.temperatureUnits, List.lookup, b1, b2]
+          split <;> rfl
+        simp [cTemperature, hn, this, bind, Except.bind] at h
+
+/-- **any temperature call** -/
+lemma convertTemperature_any (s : Iso α) (r : Rep) (hs : s.lab = labelsOf r) (hrt : r.t = .K ∨ r.t = .C "°C")
+    (u : Option String) :
+    ((convertTemperature s u).2 ≠ .ok ∧ (convertTemperature s u).1 = s) ∨
+    ((convertTemperature s u).2 = .ok ∧ ∃ t : TRep, TRep.Valid t ∧
+      (convertTemperature s u).1.lab = labelsOf { r with t := normT t } ∧
+      (convertTemperature s u).1.ps = s.ps ∧ (convertTemperature s u).1.ls = s.ls ∧
+      (normT t).toK (convertTemperature s u).1.temp = r.t.toK s.temp) := by
+  cases h : cTemperature s.temp s.lab.tunit u with
+  | error e =>
+    left
+    have : (convertTemperature s u).2 ≠ .ok := by simp [convertTemperature, h]
+    exact ⟨this, convertTemperature_refused_unchanged s u this⟩
+  | ok x =>
+    right
+    obtain ⟨t, ht, rfl⟩ := cTemperature_ok_inv _ _ _ _ h
+    obtain ⟨a1, a2, a3, a4, _, a6⟩ := convertTemperature_typed s r t hs hrt ht
+    exact ⟨a1, t, ht, a2, a3, a4, a6⟩
+
+lemma mb_cases (b' : String) : (∃ b : MB, b.name = b') ∨ Gen.materialMode.lookup b' = none := by
+  by_cases h1 : b' = "mass"
+  · exact Or.inl ⟨.mass, h1.symm⟩
+  by_cases h2 : b' = "volume"
+  · exact Or.inl ⟨.volume, h2.symm⟩
+  by_cases h3 : b' = "molar"
+  · exact Or.inl ⟨.molar, h3.symm⟩
+  right
+  have b1 : (b' == "mass") = false := by simpa using h1
+  have b2 : (b' == "volume") = false := by simpa using h2
+  have b3 : (b' == "molar") = false := by simpa using h3
+  simp [Gen.materialMode, List.lookup, b1, b2, b3]
+
+lemma checkBasis_material (b : MB) : checkBasis Gen.materialMode (some b.name) = .ok (b.name, some b.table) := by
+  cases b <;> rfl
+
+/-- a material conversion whose target unit is unusable is refused (guard: for an unchanged basis the code only looks at
+a truthy unit different from the current one — `convert_material` has resolved the other cases before) -/
+lemma cMaterial_bad_unit (env : Env α) (v : α) (b1 b2 : MB) (u1 : String) (ut : Option String)
+    (hbad : (checkUnit (Gen.unitTable b2.table) ut : Except Err α) = .error .param)
+    (hg : b1 = b2 → truthy ut = true ∧ some u1 ≠ ut) :
+    ∃ e, cMaterial env v (some b1.name) (some b2.name) (some u1) ut = .error e := by
+  by_cases hb : b1 = b2
+  · subst hb
+    obtain ⟨g1, g2⟩ := hg rfl
+    refine ⟨.param, ?_⟩
+    simp [cMaterial, checkBasis_material, g1, g2, cUnit, hbad, bind, Except.bind]
+  · exact ⟨.param, C01.cMaterial_refuses_unit env v b1 b2 hb (some u1) ut (Or.inr hbad)⟩
+
+/-- **any material call**: refused and unchanged, or accepted as a supported `MRep` with the typed effect -/
+lemma mCore_any (a : Ads α) (mat : Mat α) (hc : a.Consistent) (hp : a.Pos) (hmp : Mat.Pos mat)
+    (psat : Option α) (tOk : Bool) (s : Iso α) (r : Rep) (sl g : α) (hs : s.lab = labelsOf r)
+    (hsl : r.l.scale Gen.unitTable a r.m = some sl) (hg : r.m.grams Gen.unitTable mat = some g)
+    (b' : String) (u' : Option String) (hres : b' = s.lab.mbasis → truthy u' = false → u' = s.lab.munit) :
+    ((mCore ⟨psat, envOf a mat, tOk⟩ s b' u').2 ≠ .ok ∧ (mCore ⟨psat, envOf a mat, tOk⟩ s b' u').1 = s) ∨
+    ((mCore ⟨psat, envOf a mat, tOk⟩ s b' u').2 = .ok ∧ ∃ m : MRep, ∃ sl' g' : α,
+      r.l.scale Gen.unitTable a m = some sl' ∧ m.grams Gen.unitTable mat = some g' ∧
+      (mCore ⟨psat, envOf a mat, tOk⟩ s b' u').1.lab = labelsOf { r with m := m } ∧
+      (mCore ⟨psat, envOf a mat, tOk⟩ s b' u').1.ps = s.ps ∧
+      (mCore ⟨psat, envOf a mat, tOk⟩ s b' u').1.temp = s.temp ∧
+      (mCore ⟨psat, envOf a mat, tOk⟩ s b' u').1.ls = s.ls.map (· * ((sl / g) / (sl' / g')))) := by
+  have hb : s.lab.lbasis = r.l.basis := by rw [hs]; rfl
+  have hmb : s.lab.mbasis = r.m.b.name := by rw [hs]; rfl
+  have hmu : s.lab.munit = some r.m.u := by rw [hs]; rfl
+  have hgn := grams_ne_zero_gen mat hmp r.m g hg
+  have hsn := lscale_ne_zero_gen a hp r.m r.l sl hsl
+  have typed : ∀ (m : MRep) (g' : α), m.grams Gen.unitTable mat = some g' → m.b.name = b' → some m.u = u' →
+      ((mCore ⟨psat, envOf a mat, tOk⟩ s b' u').2 = .ok ∧ ∃ m : MRep, ∃ sl' g' : α,
+      r.l.scale Gen.unitTable a m = some sl' ∧ m.grams Gen.unitTable mat = some g' ∧
+      (mCore ⟨psat, envOf a mat, tOk⟩ s b' u').1.lab = labelsOf { r with m := m } ∧
+      (mCore ⟨psat, envOf a mat, tOk⟩ s b' u').1.ps = s.ps ∧
+      (mCore ⟨psat, envOf a mat, tOk⟩ s b' u').1.temp = s.temp ∧
+      (mCore ⟨psat, envOf a mat, tOk⟩ s b' u').1.ls = s.ls.map (· * ((sl / g) / (sl' / g')))) := by
+    intro m g' hg' h1 h2
+    subst h1; subst h2
+    obtain ⟨sl', hsl'⟩ := lscale_of_grams a mat r.l r.m m sl g' hsl hg'
+    obtain ⟨a1, a2, a3, a4, a5⟩ := mCore_typed a mat hc hp hmp psat tOk s r.l r.m m g g' sl sl' hb hmb hmu hg hg' hsl hsl'
+    exact ⟨a1, m, sl', g', hsl', hg', by rw [a2, hs]; rfl, a3, a4, a5⟩
+  have refused : (∃ e, cMaterial (envOf a mat) (1 : α) (some s.lab.mbasis) (some b') s.lab.munit u' = .error e) →
+      ¬(b' = s.lab.mbasis ∧ u' = s.lab.munit) →
+      ((mCore ⟨psat, envOf a mat, tOk⟩ s b' u').2 ≠ .ok ∧ (mCore ⟨psat, envOf a mat, tOk⟩ s b' u').1 = s) := by
+    rintro ⟨e, he⟩ hne
+    have : (mCore ⟨psat, envOf a mat, tOk⟩ s b' u').2 ≠ .ok := by
+      unfold mCore; simp only [hne, if_false, he]; split <;> simp
+    exact ⟨this, mCore_refused _ _ _ _ this⟩
+  by_cases he : b' = s.lab.mbasis ∧ u' = s.lab.munit
+  · right
+    have : mCore ⟨psat, envOf a mat, tOk⟩ s b' u' = (s, .ok) := by unfold mCore; simp [he]
+    rw [this]
+    exact ⟨rfl, r.m, sl, g, hsl, hg, hs, rfl, rfl, by simp [div_self (div_ne_zero hsn hgn)]⟩
+  rcases mb_cases b' with ⟨b, rfl⟩ | hnone
+  · rcases checkUnit_cases (α := α) (Gen.unitTable b.table) u' with ⟨y, f, rfl, hy, hf, _⟩ | hbad
+    · refine Or.inr (typed ⟨b, y⟩ (f * gM mat b) ?_ rfl rfl)
+      simp only [Spec.MRep.grams, hy, if_false]
+      rw [← facOf_eq_fac, hf]; rfl
+    · left
+      apply refused _ he
+      rw [hmb, hmu]
+      apply cMaterial_bad_unit _ _ _ _ _ _ hbad
+      intro hbb
+      have e1 : b.name = s.lab.mbasis := by rw [hmb, hbb]
+      have ht : truthy u' = true := by
+        by_contra hf
+        have hf' : truthy u' = false := by simpa using hf
+        exact he ⟨e1, hres e1 hf'⟩
+      refine ⟨ht, ?_⟩
+      intro h
+      exact he ⟨e1, by rw [hmu, h]⟩
+  · left
+    apply refused _ he
+    have hbt := C01.checkBasis_refuses Gen.materialMode (some b') (Or.inr (Or.inr ⟨b', rfl, hnone⟩))
+    refine ⟨.param, ?_⟩
+    rw [hmb]
+    simp [cMaterial, checkBasis_material, hbt, bind, Except.bind]
+
+lemma lb_cases (b' : String) :
+    (∃ b : LB, b.name = b') ∨ b' = "fraction" ∨ b' = "percent" ∨ Gen.loadingMode.lookup b' = none := by
+  by_cases h1 : b' = "mass"
+  · exact Or.inl ⟨.mass, h1.symm⟩
+  by_cases h2 : b' = "volume_gas"
+  · exact Or.inl ⟨.volGas, h2.symm⟩
+  by_cases h3 : b' = "volume_liquid"
+  · exact Or.inl ⟨.volLiq, h3.symm⟩
+  by_cases h4 : b' = "molar"
+  · exact Or.inl ⟨.molar, h4.symm⟩
+  by_cases h5 : b' = "fraction"
+  · exact Or.inr (Or.inl h5)
+  by_cases h6 : b' = "percent"
+  · exact Or.inr (Or.inr (Or.inl h6))
+  right; right; right
+  have b1 : (b' == "mass") = false := by simpa using h1
+  have b2 : (b' == "volume_gas") = false := by simpa using h2
+  have b3 : (b' == "volume_liquid") = false := by simpa using h3
+  have b4 : (b' == "molar") = false := by simpa using h4
+  have b5 : (b' == "fraction") = false := by simpa using h5
+  have b6 : (b' == "percent") = false := by simpa using h6
+  simp [Gen.loadingMode, List.lookup, b1, b2, b3, b4, b5, b6]
+
+lemma checkBasis_loading_phys (b : LB) :
+    checkBasis Gen.loadingMode (some b.name) = .ok (b.name, some b.table) := by cases b <;> rfl
+
+lemma checkBasis_loading (l : LRep) : ∃ tf, checkBasis Gen.loadingMode (some l.basis) = .ok (l.basis, tf) := by
+  cases l with
+  | phys b u => exact ⟨_, checkBasis_loading_phys b⟩
+  | frac => exact ⟨_, frac_basis⟩
+  | pct => exact ⟨_, pct_basis⟩
+
+lemma LB.name_ne_frac (b : LB) : b.name ≠ "fraction" ∧ b.name ≠ "percent" := by
+  cases b <;> simp [Spec.LB.name]
+
+/-- a loading conversion to a physical basis whose unit is unusable is refused (guard as for the material) -/
+lemma cLoading_bad_unit (env : Env α) (v : α) (l1 : LRep) (b2 : LB) (ut bm um : Option String)
+    (hbad : (checkUnit (Gen.unitTable b2.table) ut : Except Err α) = .error .param)
+    (hg : l1.basis = b2.name → truthy ut = true ∧ l1.unit ≠ ut) :
+    ∃ e, cLoading env v (some l1.basis) (some b2.name) l1.unit ut bm um = .error e := by
+  cases l1 with
+  | phys b1 u1 =>
+    by_cases hb : b1 = b2
+    · subst hb
+      obtain ⟨g1, g2⟩ := hg rfl
+      refine ⟨.param, ?_⟩
+      simp only [LRep.unit] at g2
+      simp [cLoading, LRep.basis, LRep.unit, checkBasis_loading_phys, g1, g2, cUnit, hbad, bind, Except.bind]
+    · exact ⟨.param, C01.cLoading_refuses_unit env v b1 b2 hb (some u1) ut bm um (Or.inr hbad)⟩
+  | frac =>
+    refine ⟨.param, ?_⟩
+    have hne : "fraction" ≠ b2.name := fun h => (LB.name_ne_frac b2).1 h.symm
+    simp [cLoading, LRep.basis, frac_basis, checkBasis_loading_phys, hne, hbad, bind, Except.bind]
+  | pct =>
+    refine ⟨.param, ?_⟩
+    have hne : "percent" ≠ b2.name := fun h => (LB.name_ne_frac b2).2 h.symm
+    simp [cLoading, LRep.basis, pct_basis, checkBasis_loading_phys, hne, hbad, bind, Except.bind]
+
+/-- towards fraction / percent the target unit argument is never looked at -/
+lemma cLoading_frac_unit_indep (env : Env α) (v : α) (l1 : LRep) (bt : String)
+    (hbt : bt = "fraction" ∨ bt = "percent") (hne : l1.basis ≠ bt) (uf ut bm um : Option String) :
+    cLoading env v (some l1.basis) (some bt) uf ut bm um = cLoading env v (some l1.basis) (some bt) uf none bm um := by
+  obtain ⟨tf, hb1⟩ := checkBasis_loading l1
+  rcases hbt with rfl | rfl
+  · simp [cLoading, hb1, frac_basis, hne, isFrac, bind, Except.bind]
+  · simp [cLoading, hb1, pct_basis, hne, isFrac, bind, Except.bind]
+
+/-- **any loading call**: refused and unchanged, or accepted as a supported `LRep` with the typed effect -/
+lemma lCore_any (a : Ads α) (mat : Mat α) (hc : a.Consistent) (hp : a.Pos)
+    (psat : Option α) (tOk : Bool) (s : Iso α) (r : Rep) (sl g : α) (hs : s.lab = labelsOf r)
+    (hsl : r.l.scale Gen.unitTable a r.m = some sl) (hg : r.m.grams Gen.unitTable mat = some g)
+    (b' : String) (u' : Option String) (hres : b' = s.lab.lbasis → truthy u' = false → u' = s.lab.lunit) :
+    ((lCore ⟨psat, envOf a mat, tOk⟩ s b' u').2 ≠ .ok ∧ (lCore ⟨psat, envOf a mat, tOk⟩ s b' u').1 = s) ∨
+    ((lCore ⟨psat, envOf a mat, tOk⟩ s b' u').2 = .ok ∧ ∃ l : LRep, ∃ sl' : α,
+      l.scale Gen.unitTable a r.m = some sl' ∧
+      (lCore ⟨psat, envOf a mat, tOk⟩ s b' u').1.lab = labelsOf { r with l := l } ∧
+      (lCore ⟨psat, envOf a mat, tOk⟩ s b' u').1.ps = s.ps ∧
+      (lCore ⟨psat, envOf a mat, tOk⟩ s b' u').1.temp = s.temp ∧
+      (lCore ⟨psat, envOf a mat, tOk⟩ s b' u').1.ls = s.ls.map (· * (sl / sl'))) := by
+  have hb : s.lab.lbasis = r.l.basis := by rw [hs]; rfl
+  have hu : s.lab.lunit = r.l.unit := by rw [hs]; rfl
+  have hmb : s.lab.mbasis = r.m.b.name := by rw [hs]; rfl
+  have hmu : s.lab.munit = some r.m.u := by rw [hs]; rfl
+  have hsn := lscale_ne_zero_gen a hp r.m r.l sl hsl
+  have typed : ∀ (l : LRep) (sl' : α), l.scale Gen.unitTable a r.m = some sl' → l.basis = b' →
+      lCore ⟨psat, envOf a mat, tOk⟩ s b' u' = lCore ⟨psat, envOf a mat, tOk⟩ s l.basis l.unit →
+      ((lCore ⟨psat, envOf a mat, tOk⟩ s b' u').2 = .ok ∧ ∃ l : LRep, ∃ sl' : α,
+      l.scale Gen.unitTable a r.m = some sl' ∧
+      (lCore ⟨psat, envOf a mat, tOk⟩ s b' u').1.lab = labelsOf { r with l := l } ∧
+      (lCore ⟨psat, envOf a mat, tOk⟩ s b' u').1.ps = s.ps ∧
+      (lCore ⟨psat, envOf a mat, tOk⟩ s b' u').1.temp = s.temp ∧
+      (lCore ⟨psat, envOf a mat, tOk⟩ s b' u').1.ls = s.ls.map (· * (sl / sl'))) := by
+    intro l sl' hsl' h1 h2
+    rw [h2]
+    obtain ⟨a1, a2, a3, a4, a5⟩ := lCore_typed a mat hc hp psat tOk s r.m r.l l sl sl' hb hu hmb hmu hsl hsl'
+    exact ⟨a1, l, sl', hsl', by rw [a2, hs]; rfl, a3, a4, a5⟩
+  have unchanged : lCore ⟨psat, envOf a mat, tOk⟩ s b' u' = (s, .ok) →
+      ((lCore ⟨psat, envOf a mat, tOk⟩ s b' u').2 = .ok ∧ ∃ l : LRep, ∃ sl' : α,
+      l.scale Gen.unitTable a r.m = some sl' ∧
+      (lCore ⟨psat, envOf a mat, tOk⟩ s b' u').1.lab = labelsOf { r with l := l } ∧
+      (lCore ⟨psat, envOf a mat, tOk⟩ s b' u').1.ps = s.ps ∧
+      (lCore ⟨psat, envOf a mat, tOk⟩ s b' u').1.temp = s.temp ∧
+      (lCore ⟨psat, envOf a mat, tOk⟩ s b' u').1.ls = s.ls.map (· * (sl / sl'))) := by
+    intro h
+    rw [h]
+    exact ⟨rfl, r.l, sl, hsl, hs, rfl, rfl, by simp [hsn]⟩
+  by_cases he : b' = s.lab.lbasis ∧ u' = s.lab.lunit
+  · exact Or.inr (unchanged (by unfold lCore; simp [he]))
+  by_cases he2 : (isFrac s.lab.lbasis && decide (b' = s.lab.lbasis)) = true
+  · exact Or.inr (unchanged (by unfold lCore; simp only [he, if_false, he2, if_true]))
+  have refused : (∃ e, cLoading (envOf a mat) (1 : α) (some s.lab.lbasis) (some b') s.lab.lunit u'
+        (some s.lab.mbasis) s.lab.munit = .error e) →
+      ((lCore ⟨psat, envOf a mat, tOk⟩ s b' u').2 ≠ .ok ∧ (lCore ⟨psat, envOf a mat, tOk⟩ s b' u').1 = s) := by
+    rintro ⟨e, hee⟩
+    have : (lCore ⟨psat, envOf a mat, tOk⟩ s b' u').2 ≠ .ok := by
+      unfold lCore; simp [he, he2, hee]
+    exact ⟨this, lCore_refused _ _ _ _ this⟩
+  -- towards fraction / percent: the unit argument is irrelevant
+  have fracTarget : ∀ l : LRep, (l = .frac ∨ l = .pct) → l.basis = b' →
+      lCore ⟨psat, envOf a mat, tOk⟩ s b' u' = lCore ⟨psat, envOf a mat, tOk⟩ s l.basis l.unit := by
+    intro l hl hlb
+    have hbt : b' = "fraction" ∨ b' = "percent" := by
+      rcases hl with rfl | rfl
+      · exact Or.inl hlb.symm
+      · exact Or.inr hlb.symm
+    have hlu : l.unit = none := by rcases hl with rfl | rfl <;> rfl
+    have hfb : isFrac b' = true := by rcases hbt with rfl | rfl <;> rfl
+    have hne : b' ≠ s.lab.lbasis := by
+      intro h
+      apply he2
+      simp only [Bool.and_eq_true, decide_eq_true_eq]
+      exact ⟨by rw [← h]; exact hfb, h⟩
+    have hne' : r.l.basis ≠ b' := fun h => hne (by rw [hb, h])
+    have hind := cLoading_frac_unit_indep (envOf a mat) (1 : α) r.l b' hbt hne' s.lab.lunit u'
+      (some s.lab.mbasis) s.lab.munit
+    rw [hlb, hlu]
+    unfold lCore
+    simp only [hne, false_and, if_false, Bool.and_false, decide_false, Bool.false_eq_true, hfb, if_true]
+    rw [← hb] at hind
+    rw [hind]
+  obtain ⟨p, hpown⟩ := own_scale_of_grams a mat r.m g hg
+  rcases lb_cases b' with ⟨b, rfl⟩ | rfl | rfl | hnone
+  · rcases checkUnit_cases (α := α) (Gen.unitTable b.table) u' with ⟨y, f, rfl, hy, hf, _⟩ | hbad
+    · refine Or.inr (typed (.phys b y) (f * gL a b) ?_ rfl rfl)
+      simp only [Spec.LRep.scale, Spec.physScale, hy, if_false]
+      rw [← facOf_eq_fac, hf]; rfl
+    · left
+      apply refused
+      rw [hb, hu]
+      apply cLoading_bad_unit _ _ _ _ _ _ _ hbad
+      intro hbb
+      have e1 : b.name = s.lab.lbasis := by rw [hb, hbb]
+      have ht : truthy u' = true := by
+        by_contra hf
+        have hf' : truthy u' = false := by simpa using hf
+        exact he ⟨e1, hres e1 hf'⟩
+      refine ⟨ht, ?_⟩
+      intro h
+      exact he ⟨e1, by rw [hu, h]⟩
+  · exact Or.inr (typed .frac p hpown rfl (fracTarget .frac (Or.inl rfl) rfl))
+  · exact Or.inr (typed .pct (p / 100) (by simp [Spec.LRep.scale, hpown]) rfl (fracTarget .pct (Or.inr rfl) rfl))
+  · left
+    apply refused
+    have hbt := C01.checkBasis_refuses Gen.loadingMode (some b') (Or.inr (Or.inr ⟨b', rfl, hnone⟩))
+    obtain ⟨tf, hb1⟩ := checkBasis_loading r.l
+    refine ⟨.param, ?_⟩
+    rw [hb]
+    simp [cLoading, hb1, hbt, bind, Except.bind]
+
+lemma orCurrent_cases (arg : Option String) (cur : String) :
+    orCurrent arg cur = cur ∨ ∃ x, arg = some x ∧ x ≠ "" ∧ orCurrent arg cur = x := by
+  cases arg with
+  | none => exact Or.inl rfl
+  | some x =>
+    by_cases hx : x = ""
+    · left; simp [orCurrent, hx]
+    · right; exact ⟨x, rfl, hx, by simp [orCurrent, hx]⟩
+
+lemma unitArg_hres (u : Option String) (m' cur' : String) (cur : Option String) :
+    m' = cur' → truthy (unitArg u (decide (m' = cur')) cur) = false → unitArg u (decide (m' = cur')) cur = cur := by
+  intro h1 h2
+  exact unitArg_resolved u _ cur (by simp [h1]) h2
+
+/-- **completeness of validation** (`step_any_args`, full strength for all four quantities): from a valid typed state,
+ANY single-quantity call with ARBITRARY optional-string arguments (unknown modes, bases and units, empty strings,
+omitted arguments, …) either is refused — then the state is exactly unchanged — or returns normally — then the new
+labels are again `labelsOf` of a supported representation `r'` (so the constructor would accept them) and pressures,
+loadings and temperature carry row by row the same Pa, mol/g and K as before.  No argument can drive the isotherm
+into a state whose labels do not describe its data. -/
+theorem step_any_args (ps : α) (hps : ps ≠ 0) (a : Ads α) (mat : Mat α) (hc : a.Consistent) (hp : a.Pos)
+    (hmp : Mat.Pos mat) (s : Iso α) (r : Rep) (hs : s.lab = labelsOf r) (hr : Rep.Valid ps a mat r)
+    (op : Op) (hop : ∀ pm pu lb lu mb mu, op ≠ .all pm pu lb lu mb mu) :
+    ((step ⟨some ps, envOf a mat, true⟩ s op).2 ≠ .ok ∧ (step ⟨some ps, envOf a mat, true⟩ s op).1 = s) ∨
+    ((step ⟨some ps, envOf a mat, true⟩ s op).2 = .ok ∧ ∃ r' : Rep, Rep.Valid ps a mat r' ∧
+      validLabels (step ⟨some ps, envOf a mat, true⟩ s op).1.lab = true ∧
+      Conserved ps a mat s r (step ⟨some ps, envOf a mat, true⟩ s op).1 r') := by
+  obtain ⟨⟨hsp, hspn⟩, ⟨hsl, hsln⟩, ⟨hg, hgn⟩⟩ := hr.scales hps hp hmp
+  obtain ⟨v1, v2, v3, v4⟩ := hr
+  have fin : ∀ (s' : Iso α) (r' : Rep), Rep.Valid ps a mat r' → Conserved ps a mat s r s' r' →
+      ∃ r' : Rep, Rep.Valid ps a mat r' ∧ validLabels s'.lab = true ∧ Conserved ps a mat s r s' r' :=
+    fun s' r' hv hcn => ⟨r', hv, by rw [hcn.lab]; exact validLabels_of_valid ps a mat r' hv, hcn⟩
+  cases op with
+  | all pm pu lb lu mb mu => exact absurd rfl (hop pm pu lb lu mb mu)
+  | pressure m u =>
+    simp only [step]
+    rw [convertPressure_core]
+    rcases pCore_any ps hps (envOf a mat) s r _ hs hsp _ _ (unitArg_hres u _ _ _) with h | ⟨hok, t, st, hst, a2, a3, a4, a5⟩
+    · exact Or.inl h
+    · refine Or.inr ⟨hok, fin _ { r with p := t } ⟨by simp [hst], v2, v3, v4⟩ ⟨a2, ?_, ?_, ?_⟩⟩
+      · rw [a5]
+        apply conserve_map
+        intro v
+        simp only [canonP, spOf_eq hst]
+        have : st ≠ 0 := scale_ne_zero_gen ps hps t st hst
+        field_simp
+      · rw [a3]; rfl
+      · rw [a4]; rfl
+  | loading b u =>
+    simp only [step]
+    rw [convertLoading_core]
+    rcases lCore_any a mat hc hp (some ps) true s r _ _ hs hsl hg _ _ (unitArg_hres u _ _ _) with
+      h | ⟨hok, l, sl', hsl', a2, a3, a4, a5⟩
+    · exact Or.inl h
+    · refine Or.inr ⟨hok, fin _ { r with l := l } ⟨v1, by simp [hsl'], v3, v4⟩ ⟨a2, ?_, ?_, ?_⟩⟩
+      · rw [a3]; rfl
+      · rw [a5]
+        apply conserve_map
+        intro v
+        simp only [canonL, slOf_eq hsl']
+        have : sl' ≠ 0 := lscale_ne_zero_gen a hp r.m l sl' hsl'
+        field_simp
+      · rw [a4]; rfl
+  | material b u =>
+    simp only [step]
+    rw [convertMaterial_core]
+    rcases mCore_any a mat hc hp hmp (some ps) true s r _ _ hs hsl hg _ _ (unitArg_hres u _ _ _) with
+      h | ⟨hok, m, sl', g', hsl', hg', a2, a3, a4, a5⟩
+    · exact Or.inl h
+    · refine Or.inr ⟨hok, fin _ { r with m := m } ⟨v1, by simp [hsl'], by simp [hg'], v4⟩ ⟨a2, ?_, ?_, ?_⟩⟩
+      · rw [a3]; rfl
+      · rw [a5]
+        apply conserve_map
+        intro v
+        simp only [canonL, slOf_eq hsl', gmOf_eq hg']
+        have e1 : sl' ≠ 0 := lscale_ne_zero_gen a hp m r.l sl' hsl'
+        have e2 : g' ≠ 0 := grams_ne_zero_gen mat hmp m g' hg'
+        field_simp
+      · rw [a4]; rfl
+  | temperature u =>
+    simp only [step]
+    rcases convertTemperature_any s r hs v4 u with h | ⟨hok, t, ht, a2, a3, a4, a6⟩
+    · exact Or.inl h
+    · refine Or.inr ⟨hok, fin _ { r with t := normT t } ⟨v1, v2, v3, by cases t <;> simp [normT]⟩ ⟨a2, ?_, ?_, a6⟩⟩
+      · rw [a3]; rfl
+      · rw [a4]; rfl
+
+/-- "still a valid isotherm, consistent with its data": the labels name a supported representation under which the
+stored numbers carry the reference content -/
+def Good (ps : α) (a : Ads α) (mat : Mat α) (s0 : Iso α) (r0 : Rep) (s : Iso α) : Prop :=
+  ∃ r : Rep, Rep.Valid ps a mat r ∧ validLabels s.lab = true ∧ Conserved ps a mat s0 r0 s r
+
+lemma good_single (ps : α) (hps : ps ≠ 0) (a : Ads α) (mat : Mat α) (hc : a.Consistent) (hp : a.Pos)
+    (hmp : Mat.Pos mat) (s0 : Iso α) (r0 : Rep) (s : Iso α) (hgood : Good ps a mat s0 r0 s)
+    (op : Op) (hop : ∀ pm pu lb lu mb mu, op ≠ .all pm pu lb lu mb mu) :
+    Good ps a mat s0 r0 (step ⟨some ps, envOf a mat, true⟩ s op).1 := by
+  obtain ⟨r, hv, hl, hcn⟩ := hgood
+  rcases step_any_args ps hps a mat hc hp hmp s r hcn.lab hv op hop with ⟨_, h⟩ | ⟨_, r', hv', hl', hcn'⟩
+  · rw [h]; exact ⟨r, hv, hl, hcn⟩
+  · exact ⟨r', hv', hl', hcn.trans hcn'⟩
+
+lemma good_all (ps : α) (hps : ps ≠ 0) (a : Ads α) (mat : Mat α) (hc : a.Consistent) (hp : a.Pos)
+    (hmp : Mat.Pos mat) (s0 : Iso α) (r0 : Rep) (s : Iso α) (hgood : Good ps a mat s0 r0 s)
+    (pm pu lb lu mb mu : Option String) :
+    Good ps a mat s0 r0 (convertAll ⟨some ps, envOf a mat, true⟩ s pm pu lb lu mb mu).1 := by
+  have gP : Good ps a mat s0 r0
+      (if truthy pm || truthy pu then convertPressure ⟨some ps, envOf a mat, true⟩ s pm pu else (s, .ok)).1 := by
+    split
+    · exact good_single ps hps a mat hc hp hmp s0 r0 s hgood (.pressure pm pu) (by intros; simp)
+    · exact hgood
+  rw [convertAll_eq_tail]
+  cases hr : (if truthy pm || truthy pu then convertPressure ⟨some ps, envOf a mat, true⟩ s pm pu else (s, .ok)) with
+  | mk sp op =>
+  rw [hr] at gP
+  cases op with
+  | err e => exact gP
+  | ok =>
+    simp only
+    have gM : Good ps a mat s0 r0
+        (if truthy mb || truthy mu then convertMaterial ⟨some ps, envOf a mat, true⟩ sp mb mu else (sp, .ok)).1 := by
+      split
+      · exact good_single ps hps a mat hc hp hmp s0 r0 sp gP (.material mb mu) (by intros; simp)
+      · exact gP
+    unfold convTail
+    simp only
+    cases hr2 : (if truthy mb || truthy mu then convertMaterial ⟨some ps, envOf a mat, true⟩ sp mb mu else (sp, .ok)) with
+    | mk sm om =>
+    rw [hr2] at gM
+    cases om with
+    | err e => exact gM
+    | ok =>
+      simp only
+      split
+      · exact good_single ps hps a mat hc hp hmp s0 r0 sm gM (.loading lb lu) (by intros; simp)
+      · exact gM
+
+/-- **after every call, successful or refused, single or combined, with any arguments, the isotherm is still valid
+and consistent with its data** -/
+theorem step_any_op_good (ps : α) (hps : ps ≠ 0) (a : Ads α) (mat : Mat α) (hc : a.Consistent) (hp : a.Pos)
+    (hmp : Mat.Pos mat) (s0 : Iso α) (r0 : Rep) (s : Iso α) (hgood : Good ps a mat s0 r0 s) (op : Op) :
+    Good ps a mat s0 r0 (step ⟨some ps, envOf a mat, true⟩ s op).1 := by
+  cases op with
+  | all pm pu lb lu mb mu => exact good_all ps hps a mat hc hp hmp s0 r0 s hgood pm pu lb lu mb mu
+  | pressure m u => exact good_single ps hps a mat hc hp hmp s0 r0 s hgood _ (by intros; simp)
+  | loading b u => exact good_single ps hps a mat hc hp hmp s0 r0 s hgood _ (by intros; simp)
+  | material b u => exact good_single ps hps a mat hc hp hmp s0 r0 s hgood _ (by intros; simp)
+  | temperature u => exact good_single ps hps a mat hc hp hmp s0 r0 s hgood _ (by intros; simp)
+
+/-- **any history whatsoever** (arbitrary ops, arbitrary string arguments, refused or not): the final labels are
+accepted by the constructor, they name a supported representation `rf`, and under `rf` the stored pressures, loadings
+and temperature are row by row the original Pa, mol/g and K — equivalently the final columns are the original columns
+converted directly to `rf`. -/
+theorem run_any_history (ps : α) (hps : ps ≠ 0) (a : Ads α) (mat : Mat α) (hc : a.Consistent) (hp : a.Pos)
+    (hmp : Mat.Pos mat) (s0 : Iso α) (r0 : Rep) (hs : s0.lab = labelsOf r0) (hr : Rep.Valid ps a mat r0)
+    (ops : List Op) :
+    ∃ rf : Rep, Rep.Valid ps a mat rf ∧
+      validLabels (run ⟨some ps, envOf a mat, true⟩ s0 ops).lab = true ∧
+      Conserved ps a mat s0 r0 (run ⟨some ps, envOf a mat, true⟩ s0 ops) rf ∧
+      (run ⟨some ps, envOf a mat, true⟩ s0 ops).ps = s0.ps.map (· * (spOf ps r0.p / spOf ps rf.p)) ∧
+      (run ⟨some ps, envOf a mat, true⟩ s0 ops).ls =
+        s0.ls.map (· * ((slOf a r0.l r0.m / gmOf mat r0.m) / (slOf a rf.l rf.m / gmOf mat rf.m))) ∧
+      (run ⟨some ps, envOf a mat, true⟩ s0 ops).temp = rf.t.ofK (r0.t.toK s0.temp) := by
+  have main : ∀ (ops : List Op) (s : Iso α), Good ps a mat s0 r0 s →
+      Good ps a mat s0 r0 (run ⟨some ps, envOf a mat, true⟩ s ops) := by
+    intro ops
+    induction ops with
+    | nil => intro s h; exact h
+    | cons op ops ih =>
+      intro s h
+      rw [run_cons]
+      exact ih _ (step_any_op_good ps hps a mat hc hp hmp s0 r0 s h op)
+  obtain ⟨rf, hv, hl, hcn⟩ := main ops s0
+    ⟨r0, hr, by rw [hs]; exact validLabels_of_valid ps a mat r0 hr, Conserved.refl ps a mat s0 r0 hs⟩
+  obtain ⟨d1, d2, d3⟩ := hcn.direct hps hp hmp hv
+  exact ⟨rf, hv, hl, hcn, d1, d2, d3⟩
+
+/-! ## Non-vacuity: a concrete valid representation over ℚ and a three-step history through `relative%` and `fraction` -/
+
+section Example
+
+/-- N2-like rationals (as in `Props/C01.lean`): M = 28 g/mol, consistent densities; a material of density 2 g/cm3 and
+molar mass 60 g/mol; p_sat = 101325 Pa -/
+def exAds : Ads ℚ := ⟨28, 4 / 5, 1 / 35, 7 / 1000, 1 / 4000⟩
+def exMat : Mat ℚ := ⟨2, 60⟩
+def exCtx : Ctx ℚ := ⟨some 101325, envOf exAds exMat, true⟩
+def exRep : Rep := ⟨.abs "bar", .phys .molar "mmol", ⟨.mass, "g"⟩, .K⟩
+def exIso : Iso ℚ := ⟨labelsOf exRep, [1, 2], [3, 4], 77, true, true⟩
+def exOps : List TOp := [.toP (.relp none), .toL .frac, .toP (.abs "kPa")]
+
+example : exAds.Consistent ∧ exAds.Pos ∧ Mat.Pos exMat ∧ (101325 : ℚ) ≠ 0 := by
+  refine ⟨⟨?_, ?_⟩, ⟨?_, ?_, ?_, ?_, ?_⟩, ⟨?_, ?_⟩, ?_⟩ <;> norm_num [exAds, exMat]
+
+example : Rep.Valid (101325 : ℚ) exAds exMat exRep :=
+  ⟨by decide +kernel, by decide +kernel, by decide +kernel, Or.inl rfl⟩
+
+example : ∀ op ∈ exOps, TOp.Valid (101325 : ℚ) exAds exMat op := by
+  intro op hop
+  simp only [exOps, List.mem_cons, List.not_mem_nil, or_false] at hop
+  rcases hop with rfl | rfl | rfl
+  · show (PRep.scale Gen.pressureUnits (101325 : ℚ) (.relp none)).isSome = true; decide +kernel
+  · trivial
+  · show (PRep.scale Gen.pressureUnits (101325 : ℚ) (.abs "kPa")).isSome = true; decide +kernel
+
+/-- 1 bar, 2 bar → % of p_sat → (loading to g/g) → kPa: 100 kPa, 200 kPa; 3 mmol/g, 4 mmol/g of M = 28 → 0.084, 0.112 g/g -/
+example : (run exCtx exIso (exOps.map TOp.toOp)).ps = [100, 200] := by decide +kernel
+example : (run exCtx exIso (exOps.map TOp.toOp)).ls = [21 / 250, 14 / 125] := by decide +kernel
+example : (run exCtx exIso (exOps.map TOp.toOp)).lab =
+    ⟨"absolute", some "kPa", "fraction", none, "mass", some "g", some "K"⟩ := by decide +kernel
+example : (run exCtx exIso (exOps.map TOp.toOp)).lab = labelsOf (exOps.foldl TOp.apply exRep) := by decide +kernel
+/-- the intermediate state really is in `relative%` (labels carry no pressure unit there) -/
+example : (run exCtx exIso ((exOps.take 1).map TOp.toOp)).lab.pmode = "relative%" ∧
+    (run exCtx exIso ((exOps.take 1).map TOp.toOp)).lab.punit = none ∧
+    (run exCtx exIso ((exOps.take 1).map TOp.toOp)).ps = [10000000 / 101325, 20000000 / 101325] := by decide +kernel
+/-- and a refused call in between (unknown unit) changes nothing -/
+example : (step exCtx exIso (.pressure none (some "psi"))).2 = .err .calc ∧
+    (step exCtx exIso (.pressure none (some "psi"))).1.ps = exIso.ps ∧
+    (step exCtx exIso (.pressure none (some "psi"))).1.lab = exIso.lab := by decide +kernel
+
+end Example
 
 end PgVerif.C02
